@@ -254,10 +254,16 @@ def assigned_resources(spec):
 def gen_intervals(g, H, lo_n=1, hi_n=2, top=None):
     Hh = (H if H is not None else 6) if top is None else top
     out = []
+    seen = g.__dict__.setdefault("intervals_seen", [])
     for _ in range(g.int(lo_n, hi_n)):
-        iv = g.interval(0, max(1, Hh))
+        if seen and top is None and g.chance(g.p.get("p_reuse_window", 35)):
+            iv = list(g.pick(seen))  # the same window as another constraint (e.g. one WorkLoad window on two workers)
+        else:
+            iv = g.interval(0, max(1, Hh))
         if iv not in out:  # a repeated interval is rejected by the library ("assertion already added")
             out.append(iv)
+            if top is None and iv not in seen:
+                seen.append(iv)
     return out
 
 
@@ -304,6 +310,10 @@ def gen_task_constraint(g, ty, spec, H):
 def gen_cond(g, spec, H, exclude_task=None):
     """raw boolean expression over documented task variables"""
     names = [t["name"] for t in spec["tasks"] if t["name"] != exclude_task]
+    if g.p.get("cond_mandatory_only"):
+        # the variables of an unscheduled optional task hold an arbitrary parking instant: an expression "as written"
+        # over them has no schedule-level meaning
+        names = [t["name"] for t in spec["tasks"] if t["name"] != exclude_task and not t["optional"]]
     Hh = H if H is not None else 6
     if not names or g.chance(10):
         return {"op": "bool", "v": g.chance(50)}
@@ -420,6 +430,9 @@ def gen_buffer(g, spec, H, idx):
 
 
 def gen_leaf(g, spec, H, leaves=SIMPLE_LEAVES):
+    pool = getattr(g, "leaf_pool", None)
+    if pool and g.chance(g.p.get("p_shared_operand", 0)):
+        return {"ref": g.pick(pool)}  # an operand object used in a second place
     if g.chance(35):
         return gen_cond(g, spec, H)
     for _ in range(4):
@@ -429,6 +442,9 @@ def gen_leaf(g, spec, H, leaves=SIMPLE_LEAVES):
         else:
             c = None
         if c is not None:
+            if pool is None:
+                g.leaf_pool = pool = []
+            pool.append(c["name"])
             return c
     return gen_cond(g, spec, H)
 
@@ -460,9 +476,11 @@ def gen_toplevel_formula(g, spec, H, depth=2, leaves=SIMPLE_LEAVES):
     if ty == "ConstraintFromExpression":
         return {"type": ty, "name": g.name("c"), "expr": gen_cond(g, spec, H)}
     for _ in range(5):
+        keep = list(getattr(g, "leaf_pool", None) or [])
         f = gen_formula(g, spec, H, depth, leaves)
         if "type" in f and f["type"] in FOL_TYPES:
             return f
+        g.leaf_pool = keep  # the discarded attempt's leaves do not exist
     return {"type": "ConstraintFromExpression", "name": g.name("c"), "expr": gen_cond(g, spec, H)}
 
 
